@@ -19,6 +19,17 @@ var VerifCtxHook func(kind string, ctx RuntimeContext, def *RuntimeContextDef, a
 // thread.go.  It is called by the goroutine that performs the step.
 var VerifThreadHook func(kind string, t *Thread, other *Thread)
 
+// VerifNowHook, when set, replaces the wall clock (in ms) read by the runtime
+// context manager, so that a harness can drive time limits deterministically.
+var VerifNowHook func() uint64
+
+func verifNow() (uint64, bool) {
+	if VerifNowHook != nil {
+		return VerifNowHook(), true
+	}
+	return 0, false
+}
+
 func verifCtx(kind string, ctx RuntimeContext, def *RuntimeContextDef, a, b uint64) {
 	if VerifCtxHook != nil {
 		VerifCtxHook(kind, ctx, def, a, b)
